@@ -203,7 +203,7 @@ class ModelCompiler:
             ):
                 formula = xltypes.XLFormula(
                     input_dict[item],
-                    sheet_name=default_sheet
+                    sheet_name=cell_address.split('!')[0]
                 )
                 cell = xltypes.XLCell(
                     cell_address, None,
